@@ -58,9 +58,14 @@ func (d *Dialer) Dial(network, address string) (Conn, error) {
 	return d.DialContext(context.Background(), network, address)
 }
 
-func Dial(network, address string) (Conn, error)       { return (&Dialer{}).Dial(network, address) }
-func Listen(network, address string) (Listener, error) { return net.Listen(network, address) }
-func JoinHostPort(host, port string) string            { return net.JoinHostPort(host, port) }
+func Dial(network, address string) (Conn, error) { return (&Dialer{}).Dial(network, address) }
+func Listen(network, address string) (Listener, error) {
+	if hook := simhook.NetListen(); hook != nil {
+		return hook(network, address)
+	}
+	return net.Listen(network, address)
+}
+func JoinHostPort(host, port string) string { return net.JoinHostPort(host, port) }
 func SplitHostPort(hostport string) (string, string, error) {
 	return net.SplitHostPort(hostport)
 }
